@@ -221,8 +221,19 @@ def make_paths(rng, polys, n):
         return rng.choice([(x0 - 1.0, rng.choice(ys)), (x1 + 1.0, rng.choice(ys)), (rng.choice(xs), y0 - 1.0), (rng.choice(xs), y1 + 1.0)])
     out = []
     for _ in range(n):
-        kind = rng.choice(['across', 'across', 'inside_to_inside', 'in_out', 'bend', 'along_edge', 'along_edge_reversed', 'vertex', 'miss'])
-        if kind == 'across':
+        kind = rng.choice(['across', 'across', 'inside_to_inside', 'in_out', 'bend', 'along_edge', 'along_edge_reversed', 'vertex', 'miss',
+                           'close_vertices'])
+        if _ == 0:
+            kind = 'close_vertices'
+        if kind == 'close_vertices':
+            # a track digitised finely: two vertices 1/64 and then 3/64 of a degree after the first, before the long legs
+            a = inside()
+            b = outside()
+            ux, uy = (b[0] - a[0]), (b[1] - a[1])
+            nrm = (ux * ux + uy * uy) ** 0.5 or 1.0
+            ux, uy = ux / nrm, uy / nrm
+            pts = [a, (a[0] + ux / 64, a[1] + uy / 64), (a[0] + 3 * ux / 64 - uy / 128, a[1] + 3 * uy / 64 + ux / 128), b, outside()]
+        elif kind == 'across':
             pts = [outside(), outside()]
         elif kind == 'inside_to_inside':
             pts = [inside(), inside()]
@@ -267,6 +278,58 @@ def shift_latitudes(ds, dy):
     return out
 
 
+def section_figure(ctx, t, ds, segs, td, flat_vals, ncell):
+    import matplotlib
+    matplotlib.use('Agg')
+    import matplotlib.pyplot as plt
+    from matplotlib.collections import PolyCollection
+    field = ds['field']
+    extra = [x for x in field.dims if x == 'tt']
+    f2 = field.isel({x: 1 for x in extra}) if extra else field
+    vals = flat_vals[1] if extra else flat_vals            # (k, cell)
+    fig = plt.figure()
+    try:
+        ctx.count('section figure')
+        with warnings.catch_warnings():
+            warnings.simplefilter('ignore')
+            r = attempt(lambda: t.plot_on_figure(fig, f2))
+        if r[0] != 'ok':
+            return f'Transect.plot_on_figure failed: {r[1]}'
+        pcs = [c for a in fig.axes for c in a.collections if isinstance(c, PolyCollection)]
+        nk = td['depth'].size
+        main = [c for c in pcs if len(c.get_paths()) == nk * len(segs)]
+        if not main:
+            return f'the section holds no collection of {nk} x {len(segs)} patches'
+        pc = main[0]
+        arr = numpy.asarray(pc.get_array(), dtype='f8').reshape(-1)
+        if len(arr) != nk * len(segs):
+            return f'{len(arr)} values for {nk * len(segs)} patches'
+        dist = [(float(s1.start_distance), float(s1.end_distance)) for s1 in segs]
+        dbounds = [tuple(sorted(float(x) for x in row)) for row in td['depth_bounds'].values]
+        for i, path in enumerate(pc.get_paths()):
+            xs = sorted({float(x) for x, y in path.vertices[:4]})
+            ys = sorted({float(y) for x, y in path.vertices[:4]})
+            xr = (xs[0], xs[-1])
+            yr = (ys[0], ys[-1])
+            cand_seg = [j for j, dd in enumerate(dist) if (min(dd), max(dd)) == xr]
+            cand_k = [k for k, bb in enumerate(dbounds) if bb == yr]
+            if not cand_seg or not cand_k:
+                return f'patch {i} spans distances {xr} and depths {yr}: not a piece of the path x a layer of the depth axis'
+            ok = False
+            for j in cand_seg:
+                for k in cand_k:
+                    w = vals[k, int(segs[j].linear_index)]
+                    if arr[i] == w or (arr[i] != arr[i] and w != w):
+                        ok = True
+            if not ok:
+                j, k = cand_seg[0], cand_k[0]
+                return (f'patch {i} (piece {j} in cell {int(segs[j].linear_index)}, layer {k}) is coloured with {arr[i]}, that cell '
+                        f'holds {vals[k, int(segs[j].linear_index)]} in that layer')
+        return None
+    finally:
+        plt.close(fig)
+
+
 def run(ctx):
     rng = ctx.rng
     quick = ctx.tier == 'quick'
@@ -289,6 +352,8 @@ def run(ctx):
         nm1, _ = gen.DEPTH_NAMES.get(d.family, (None, None))
         ds, sp = gen.add_depth(rng, d.ds, dim='k', name=nm1, positive='attr', second=False)
         depth_name = sp['coords'][0]['name']
+        ds[depth_name].attrs.setdefault('units', 'm')         # the section's axes are labelled with the units of the depth coordinate
+        ds[depth_name].attrs.setdefault('long_name', 'depth')
         # a third of the datasets sit at high latitude, where a degree of longitude is half a degree of latitude
         shift = rng.choice([0.0, 0.0, 56.0]) if not long_model else 0.0
         if shift:
@@ -505,6 +570,13 @@ def run(ctx):
                 ctx.report('property', f'the prepared data (dims {prep.dims}) does not hold, for each piece, the values of that '
                            f"piece's cell at every depth", case)
                 continue
+            # ---- the section drawn from it: every patch spans one piece's distances and one layer's depth bounds and is coloured
+            # with the value of that piece's cell in that layer
+            if ctx.evaluations % 2 == 0 and segs:
+                fbad = section_figure(ctx, t, ds, segs, td, flat_vals, ncell)
+                if fbad:
+                    ctx.report('property', fbad, dict(case, through='Transect.plot_on_figure'))
+                    continue
             # ---- ordering against the model (exact positions along the path)
             lit = '[' + '; '.join(f'(({c})%Z, (({a.numerator})%Z, {a.denominator}%Z), (({b.numerator})%Z, {b.denominator}%Z))'
                                    for c, a, b in model_pieces) + ']'
